@@ -36,6 +36,7 @@ package criteria_concealment
 //@   ensures [shape] fresh(result0) && fresh(*result0) && len(*result0) == len(resParams.ConsideredAlternatives) + len(resParams.NotConsideredAlternatives)
 //@   ensures [extended_members] forall k int :: 0 <= k && k < len(*result0) ==> exists j int :: 0 <= j && j < len(*result0)
 //@             && model.extendedBy((*result0)[k], model.altAt(resParams.ConsideredAlternatives, resParams.NotConsideredAlternatives, j), newCriterion.Id)
+//@   ensures [C04 C18 values_are_drawn_in_id_order_not_listing_order] forall i int, j int :: 0 <= i && i < j && j < len(*result0) ==> !((*result0)[j].Id < (*result0)[i].Id)
 
 //@ func generateCriterionValuesForAlternatives
 //@   property C18 C07 C09 C01
@@ -62,8 +63,10 @@ package criteria_concealment
 //@   ensures [parameters_extended] model.coversAll(*listener, result0.MethodParameters, result0.Criteria) && model.validParams(*listener, result0.MethodParameters)
 //@   ensures [report] len(result1) == 1 && result1[0].Id == result0.Criteria[len(resParams.Criteria)].Id && result1[0].Type == model.Gain
 
+// what "made of the current state" means for this bias (the abstract model.actsOn)
+//@ pred concealmentActs(b model.Bias, out *model.DecisionMakingParams, in *model.DecisionMakingParams) = len(out.Criteria) == len(in.Criteria) + 1 && forall k int :: 0 <= k && k < len(in.Criteria) ==> out.Criteria[k] == in.Criteria[k]
 //@ func (*CriteriaConcealment).Apply
-//@   refines model.Bias.Apply
+//@   refines model.Bias.Apply with actsOn=concealmentActs
 //@   property C18 C07 C01 C09
 //@   requires model.coherent(*listener, *current) && model.coherent(*listener, *original) && len(original.Criteria) > 0
 //@   requires forall i int, j int :: 0 <= i && i < j && j < len(current.ConsideredAlternatives) ==> current.ConsideredAlternatives[i].Id != current.ConsideredAlternatives[j].Id
